@@ -11,6 +11,7 @@ import CookModel.Driver.Builder
 import CookModel.Driver.Tie
 import CookModel.Driver.Display
 import CookModel.Driver.Report
+import CookModel.Driver.FrontMatter
 /- Registry of line-protocol handlers. One line per area. -/
 namespace Cook.Driver
 def handlers : List (List String → Option String) := [
@@ -26,6 +27,7 @@ def handlers : List (List String → Option String) := [
   handleBuilder,
   handleTie,
   handleDisplay,
-  handleReport
+  handleReport,
+  handleFrontMatter
 ]
 end Cook.Driver
